@@ -515,13 +515,7 @@ bool vh::run_case(std::string const& opname, Toks& in, Out& impl, Out& ref)
     }
     if (op == "strto_integer") {
         auto ty = in.str();
-        if (ty == "i") { do_strto_integer<int>(in, impl, ref); return true; }
-        if (ty == "u") { do_strto_integer<unsigned>(in, impl, ref); return true; }
-        if (ty == "l") { do_strto_integer<long>(in, impl, ref); return true; }
-        if (ty == "ul") { do_strto_integer<unsigned long>(in, impl, ref); return true; }
-        if (ty == "ll") { do_strto_integer<long long>(in, impl, ref); return true; }
-        if (ty == "ull") { do_strto_integer<unsigned long long>(in, impl, ref); return true; }
-        return false;
+        return with_type(ty, [&](auto tg) { do_strto_integer<typename decltype(tg)::type>(in, impl, ref); });
     }
     if (op == "to_chars" || op == "to_chars_buf") {
         auto ty = in.str();
